@@ -1,5 +1,5 @@
 #!/bin/bash
-# sweep.sh : silence sweep - quick at seeds 2..6, thorough at seed 7
+# sweep.sh : silence sweep - quick at seeds 2..6, thorough at seed 7 (and at the seeds given as arguments)
 cd "$(dirname "$(readlink -f "$0")")/.."
 for s in 2 3 4 5 6; do echo "=== quick seed $s"; VERIF_SEED=$s tools/runall.sh quick | grep -v "rc=0" ; done
-echo "=== thorough seed 7"; VERIF_SEED=7 tools/runall.sh thorough
+for s in 7 "$@"; do echo "=== thorough seed $s"; VERIF_SEED=$s tools/runall.sh thorough; done
